@@ -38,3 +38,31 @@ Print Assumptions C07_bound.
 Example C07_self_reproducing : map_res height (scan search_again 5 (L"ab")) = Ok 5%nat.
 Proof. exact scan_again_5. Qed.
 Print Assumptions C07_self_reproducing.
+
+(* BEGIN shipped-registry instances *)
+(* THE SHIPPED SCANNER (Proofs/DefaultEngine.v): the theorems above hold for any registry with in-bounds hits; these are the same statements about the model of Multidecoder().scan itself - the regenerated registry of all 30 decoders and the keyword searchers (scan_default), the registry with find_powershell_strings replaced by any conforming decoder ps (scan_default_with ... ps; F6 is the reason it does not conform itself), and the registry with the shell module excluded (scan_noshell) - for every input, depth limit, keyword directory and tool oracle (pe_size non-negative). *)
+From MD Require Import Lib.Base Model.Node Model.Engine.
+From MD Require Import Model.EngineR Model.Default Model.Flatten Proofs.DefaultWf Proofs.DefaultEngine Proofs.ChainProofs.
+
+(* scan_default itself (all 30 decoders, F6 included): no hypothesis at all *)
+Theorem C07_shipped_nonpositive : forall (pe_size : bytes -> Z) (xortool : bytes -> list bytes) (extra : label -> option (bytes -> res (list node))) (kwdir : Registry.dtree) (depth : Z) (data : bytes), depth <= 0 -> scan_default pe_size xortool extra RegistryTable.decoder_modules kwdir depth data = Ok (root_node data).
+Proof. exact shipped_scan_depth_le0. Qed.
+Print Assumptions C07_shipped_nonpositive.
+
+Theorem C07_shipped_monotone : forall (pe_size : bytes -> Z) (xortool : bytes -> list bytes) (extra : label -> option (bytes -> res (list node))) (kwdir : Registry.dtree) (k : Z) (data : bytes) (t t' : node), scan_default pe_size xortool extra RegistryTable.decoder_modules kwdir k data = Ok t -> scan_default pe_size xortool extra RegistryTable.decoder_modules kwdir (k + 1) data = Ok t' -> EngineDepth.tree_le t t'.
+Proof. exact shipped_scan_mono. Qed.
+Print Assumptions C07_shipped_monotone.
+
+Theorem C07_shipped_ok_down : forall (pe_size : bytes -> Z) (xortool : bytes -> list bytes) (extra : label -> option (bytes -> res (list node))) (kwdir : Registry.dtree) (k : Z) (data : bytes) (t' : node), scan_default pe_size xortool extra RegistryTable.decoder_modules kwdir (k + 1) data = Ok t' -> exists t : node, scan_default pe_size xortool extra RegistryTable.decoder_modules kwdir k data = Ok t.
+Proof. exact shipped_scan_ok_down. Qed.
+Print Assumptions C07_shipped_ok_down.
+
+Theorem C07_shipped_monotone_node : forall (pe_size : bytes -> Z) (xortool : bytes -> list bytes) (extra : label -> option (bytes -> res (list node))) (kwdir : Registry.dtree) (d d' : nat) (n t t' : node), (d <= d')%nat -> scan_node_r (search_default pe_size xortool extra RegistryTable.decoder_modules kwdir) d n = Ok t -> scan_node_r (search_default pe_size xortool extra RegistryTable.decoder_modules kwdir) d' n = Ok t' -> EngineDepth.tree_le t t'.
+Proof. exact shipped_scan_node_mono_le. Qed.
+Print Assumptions C07_shipped_monotone_node.
+
+Theorem C07_shipped_bound : forall (pe_size : bytes -> Z) (xortool : bytes -> list bytes) (extra : label -> option (bytes -> res (list node))) (kwdir : Registry.dtree) (depth : Z) (data : bytes) (t : node), 0 < depth -> scan_default pe_size xortool extra RegistryTable.decoder_modules kwdir depth data = Ok t -> exists lg : list (nat * bytes), EngineDepth.scan_node_log (search_of (search_default pe_size xortool extra RegistryTable.decoder_modules kwdir)) (Z.to_nat depth) (root_node data) = Ok (t, (Z.to_nat depth, data) :: lg) /\ Forall (fun e : nat * bytes => (1 <= fst e <= Z.to_nat depth)%nat) lg.
+Proof. exact shipped_scan_log. Qed.
+Print Assumptions C07_shipped_bound.
+
+(* END shipped-registry instances *)
